@@ -5,6 +5,13 @@ import (
 	"github.com/reeflective/readline/internal/zzverif"
 )
 
+// zzWaitProbe, when set, sees every input wait after the first of zzRunChunks sessions
+// (wait = number of chunks consumed so far); returning true skips the end-of-script check.
+var zzWaitProbe func(rl *Shell, wait int) bool
+
+// zzSaveInitial: record the installed buffer in the undo history (sessions that undo).
+var zzSaveInitial bool
+
 type zzOutcome struct {
 	returned bool
 	line     string
@@ -42,7 +49,7 @@ func zzRunChunks(rl *Shell, mode string, initial []rune, chunks [][]byte, coDeli
 	wait := 0
 	script.OnWait = func() {
 		if wait == 0 {
-			rl.line.Set(initial...)
+			rl.line.Set(zzCopy(initial)...)
 			rl.cursor.Set(len(initial))
 			if mode != keymap.Emacs {
 				rl.Keymap.SetMain(mode)
@@ -50,7 +57,12 @@ func zzRunChunks(rl *Shell, mode string, initial []rune, chunks [][]byte, coDeli
 			if mode == keymap.ViCommand {
 				rl.cursor.Set(0)
 			}
+			if zzSaveInitial {
+				rl.History.Save()
+			}
 			script.Chunks = chunks
+		} else if zzWaitProbe != nil && zzWaitProbe(rl, wait) {
+			// the probe asked to go on
 		} else if script.Remaining() == 0 {
 			o.buf = string(*rl.line)
 			o.cursor = rl.cursor.Pos()
